@@ -22,6 +22,11 @@
      TransportState::close            every pending and every queued callback gets the status
                                       (BadConnectionClosed for Good)
 
+     TransportState::next_timeout     also returns the instant wait_for_outgoing_message sleeps until:
+                                      the smallest deadline among the requests that stay pending, None
+                                      when nothing stays pending ([next_wake]; operations Scan and Sleep
+                                      observe it, Sleep lets the transport sleep until it)
+
    Time is the explicit counter [now]; the harness moves the stored deadlines back instead of the
    clock forward (what sits in the tokio queue cannot be back-dated, so a queued request's timeout
    starts to run when it is taken from the queue: [deadline := now + t] at the pump).
@@ -55,7 +60,13 @@ Inductive op :=
 | AckMsg                   (* handle_incoming_message(Message::Acknowledge) *)
 | ErrMsg (cls : Z)         (* handle_incoming_message(Message::Error) carrying that status *)
 | Advance (t : Z)          (* time passes *)
-| Close (status : Z).      (* the transport is closed with that status (socket error, end of stream, ...) *)
+| Close (status : Z)       (* the transport is closed with that status (socket error, end of stream, ...) *)
+| Scan                     (* one call of next_timeout (a turn of the loop of wait_for_outgoing_message with
+                              nothing to send): the expired requests complete, the wake-up instant is returned *)
+| Sleep (lim : Z).         (* next_timeout, then the transport sleeps (select! on sleep_until(wake-up)): until
+                              the wake-up instant that was returned if lim < 0; if 0 <= lim something else
+                              (a response, a submission) ends the sleep after lim units if that is earlier.
+                              With nothing pending (no wake-up) lim units pass (none if lim < 0). *)
 
 Record st := {
   queue : list (Z * Z * Z);          (* (k, timeout, kind), oldest first: outgoing_recv *)
@@ -127,6 +138,24 @@ Section Step.
   Definition alive (nw : Z) (p : list (Z * entry)) : list (Z * entry) :=
     filter (fun x => negb (expired nw x)) p.
 
+  (* the wake-up instant: the loop of next_timeout over the requests that stay pending
+       match &next_timeout { Some(t) if *t > state.deadline => next_timeout = Some(state.deadline),
+                             None => next_timeout = Some(state.deadline), _ => {} }
+     (the HashMap is visited in some order; here: the order of insertion) *)
+  Definition wake1 (acc : option Z) (x : Z * entry) : option Z :=
+    match acc with
+    | Some t => if t >? e_deadline (snd x) then Some (e_deadline (snd x)) else Some t
+    | None => Some (e_deadline (snd x))
+    end.
+  Definition next_wake (p : list (Z * entry)) : option Z := fold_left wake1 p None.
+
+  (* where the clock stands when a sleep that began at [nw] with wake-up [w] ends *)
+  Definition sleep_to (nw lim : Z) (w : option Z) : Z :=
+    match w with
+    | Some w => if lim <? 0 then w else Z.min w (nw + lim)
+    | None => if lim <? 0 then nw else nw + lim
+    end.
+
   (* ---- close ---- *)
   Definition req_status (status : Z) : Z := if status =? 0 then 1 else status.
   Definition has_cb (q : Z * Z * Z) : bool := negb (snd q =? 1).
@@ -154,6 +183,11 @@ Section Step.
 
   Definition with_pending (s : st) (p : list (Z * entry)) (lr : Z) (evs : list event) : st :=
     {| queue := queue s; pending := p; last_id := last_id s; last_recv := lr; now := now s; next_k := next_k s;
+       closed := closed s; submitted := submitted s; done := done s ++ evs |}.
+
+  (* after a call of next_timeout that was not followed by taking a request from the queue *)
+  Definition scanned (s : st) (p : list (Z * entry)) (nw : Z) (evs : list event) : st :=
+    {| queue := queue s; pending := p; last_id := last_id s; last_recv := last_recv s; now := nw; next_k := next_k s;
        closed := closed s; submitted := submitted s; done := done s ++ evs |}.
 
   Definition status_of_validate (code : Z) : Z :=
@@ -241,7 +275,29 @@ Section Step.
     | Close status =>
         if closed s then (s, -1, []) else
         let evs := close_events status None (pending s) (queue s) in (set_closed s (last_recv s) (last_id s) evs, -1, evs)
+    | Scan =>
+        if closed s then (s, -1, []) else
+        let tev := timeouts (now s) (pending s) in
+        (scanned s (alive (now s) (pending s)) (now s) tev, -1, tev)
+    | Sleep lim =>
+        if closed s then (s, -1, []) else
+        let tev := timeouts (now s) (pending s) in
+        let p1 := alive (now s) (pending s) in
+        (scanned s p1 (sleep_to (now s) lim (next_wake p1)) tev, -1, tev)
     end.
+
+  (* what next_timeout returned in that operation (Scan and Sleep show it), as the distance from
+     [now]; -1: None *)
+  Definition wake (s : st) (o : op) : Z :=
+    match o with
+    | Scan | Sleep _ =>
+        if closed s then -1 else
+        match next_wake (alive (now s) (pending s)) with Some w => w - now s | None => -1 end
+    | _ => -1
+    end.
+
+  (* the full step: new state, request id, completion events, wake-up *)
+  Definition stepw (s : st) (o : op) : st * Z * list event * Z := (step s o, wake s o).
 
   Definition exec (s : st) (ops : list op) : st := fold_left (fun s o => fst (fst (step s o))) ops s.
 End Step.
@@ -303,16 +359,18 @@ Fixpoint flat (l : list event) : list Z :=
 
 Definition b2z (b : bool) : Z := if b then 1 else 0.
 
-(* per operation: [request id (Pump only)] ++ [number of events] ++ events ++ [closed afterwards] *)
-Definition enc1 (o : op) (id : Z) (evs : list event) (cl : bool) : list Z :=
-  (match o with Pump => [id] | _ => [] end) ++ Z.of_nat (length evs) :: flat evs ++ [b2z cl].
+(* per operation: [request id (Pump only)] ++ [number of events] ++ events
+   ++ [wake-up as the distance from now, -1 for None (Scan and Sleep only)] ++ [closed afterwards] *)
+Definition enc1 (o : op) (id w : Z) (evs : list event) (cl : bool) : list Z :=
+  (match o with Pump => [id] | _ => [] end) ++ Z.of_nat (length evs) :: flat evs
+  ++ (match o with Scan | Sleep _ => [w] | _ => [] end) ++ [b2z cl].
 
 Fixpoint run_from (c : case) (s : st) (ops : list op) : list Z :=
   match ops with
   | [] => []
   | o :: ops' =>
-      let '(s', id, evs) := step decode_parts (c_maxinfl c) (c_maxpend c) s o in
-      enc1 o id evs (closed s') ++ run_from c s' ops'
+      let '(s', id, evs, w) := stepw decode_parts (c_maxinfl c) (c_maxpend c) s o in
+      enc1 o id w evs (closed s') ++ run_from c s' ops'
   end.
 
 Definition run (c : case) : list Z := run_from c init (c_ops c).
@@ -375,7 +433,23 @@ Definition closed_led (g : led) (id : Z) : led :=
 Definition gexpired (nw : Z) (x : Z * (Z * Z * list Z)) : bool := gdl x <=? nw.
 
 (* observation of one operation *)
-Record ob := { o_id : Z; o_evs : list event; o_closed : bool }.
+Record ob := { o_id : Z; o_evs : list event; o_wake : Z; o_closed : bool }.
+
+(* the wake-up instant next_timeout may return when the requests [in1] stay pending at [nw]:
+   none (-1) iff nothing stays pending; otherwise an instant after [nw], not after any of their
+   deadlines - no deadline passes while the transport sleeps - and the deadline of one of them -
+   the transport does not wake up for nothing *)
+Definition wake_ok (nw : Z) (in1 : list (Z * (Z * Z * list Z))) (w : Z) : bool :=
+  match in1 with
+  | [] => w =? -1
+  | _ => (0 <? w) && forallb (fun x => nw + w <=? gdl x) in1 && existsb (fun x => gdl x =? nw + w) in1
+  end.
+
+(* the clock after a sleep of the specification: until the wake-up observed (checked by wake_ok),
+   or lim units if that is less; lim units (none for lim < 0) when there is no wake-up *)
+Definition slept (nw lim w : Z) : Z :=
+  if w <? 0 then (if lim <? 0 then nw else nw + lim)
+  else if lim <? 0 then nw + w else Z.min (nw + w) (nw + lim).
 
 Definition check1 (g : led) (o : op) (b : ob) : option led :=
   let ok (cond : bool) (g' : led) := if cond then Some g' else None in
@@ -444,6 +518,15 @@ Definition check1 (g : led) (o : op) (b : ob) : option led :=
   | Close status =>
       if g_closed g then ok (ev_eqb (o_evs b) [] && o_closed b) g else
       ok (o_closed b && close_ok (open_of g None) (o_evs b) (Some (req_status status)) None) (closed_led g (g_maxid g))
+  | Scan | Sleep _ =>
+      if g_closed g then ok (ev_eqb (o_evs b) [] && o_closed b && (o_wake b =? -1)) g else
+      (* BadTimeout exactly for the in-flight requests whose deadline has passed; the wake-up is the
+         earliest deadline of the others; a sleep ends no later than that *)
+      let tev := map (fun x => (gk x, 1, 2)) (filter (gexpired (g_now g)) (g_in g)) in
+      let in1 := filter (fun x => negb (gexpired (g_now g) x)) (g_in g) in
+      let nw' := match o with Sleep lim => slept (g_now g) lim (o_wake b) | _ => g_now g end in
+      ok (ev_eqb (o_evs b) tev && negb (o_closed b) && wake_ok (g_now g) in1 (o_wake b))
+         {| g_q := g_q g; g_in := in1; g_closed := false; g_now := nw'; g_k := g_k g; g_maxid := g_maxid g |}
   end.
 
 (* decoding one operation's observation from the flat output *)
@@ -464,8 +547,15 @@ Definition dec1 (o : op) (l : list Z) : option (ob * list Z) :=
     match l with
     | n :: r => if n <? 0 then None else
                 match take_events (Z.to_nat n) r with
-                | Some (es, cl :: r') => Some ({| o_id := id; o_evs := es; o_closed := negb (cl =? 0) |}, r')
-                | _ => None
+                | Some (es, r1) =>
+                    match o, r1 with
+                    | (Scan | Sleep _), w :: cl :: r' =>
+                        Some ({| o_id := id; o_evs := es; o_wake := w; o_closed := negb (cl =? 0) |}, r')
+                    | (Scan | Sleep _), _ => None
+                    | _, cl :: r' => Some ({| o_id := id; o_evs := es; o_wake := -1; o_closed := negb (cl =? 0) |}, r')
+                    | _, [] => None
+                    end
+                | None => None
                 end
     | [] => None
     end in
